@@ -40,7 +40,7 @@ STUBS = ['find_or_add / _ite -> contracts that may raise the reordering request 
          'dd.bdd.reorder -> contract: all references not externally held become stale (identity permutation)']
 CUTS = ['reorder contract instantiated with the identity permutation']
 
-OPS = ['ite', 'apply_and', 'quantify', 'cofactor', 'compose', 'rename', 'cube', 'var',
+OPS = ['ite', 'apply_and', 'quantify', 'forall_method', 'apply_forall', 'quantify_kw', 'cofactor', 'compose', 'rename', 'cube', 'var',
        'add_expr', 'image', 'preimage', 'copy_into', 'load', 'autoref_find_or_add',
        '_copy_copy_bdd']
 
@@ -225,6 +225,18 @@ class Harness:
             elif op == 'quantify':
                 r = bdd.quantify(U, {names[0]}, False)
                 want = oracle.bv_quant(den, den.s(u), [0], False)
+            elif op == 'forall_method':
+                r = bdd.forall({names[0]}, U)
+                want = oracle.bv_quant(den, den.s(u), [0], True)
+            elif op == 'quantify_kw':
+                r = bdd.quantify(U, {names[1]}, forall=True)
+                want = oracle.bv_quant(den, den.s(u), [1], True)
+            elif op == 'apply_forall':
+                c.assume(v == 2)
+                c.assume(z3.And(z3.Select(m.st0.LV, 2) == 0, z3.Select(m.st0.LO, 2) == -1,
+                                z3.Select(m.st0.HI, 2) == 1))      # node 2 is the variable a
+                r = bdd.apply('forall', V, U)
+                want = oracle.bv_quant(den, den.s(u), [0], True)
             elif op == 'cofactor':
                 r = bdd.let({names[0]: True}, U)
                 want = oracle.bv_cof(den, den.s(u), 0, 1)
@@ -335,6 +347,13 @@ def _run_real(case, last_len):
         want = tt(u) & tt(v)
     elif op == 'quantify':
         want = concrete.quant_tt(tt(u), [0], False, L)
+    elif op == 'forall_method':
+        want = concrete.quant_tt(tt(u), [0], True, L)
+    elif op == 'quantify_kw':
+        want = concrete.quant_tt(tt(u), [1], True, L)
+    elif op == 'apply_forall':
+        lv = [i for i in range(L) if concrete.depends_tt(tt(v), i, L)]
+        want = concrete.quant_tt(tt(u), lv, True, L)
     elif op == 'cofactor':
         want = concrete.cof_tt(tt(u), 0, 1, L)
     elif op in ('compose', 'rename'):
@@ -365,6 +384,12 @@ def _run_real(case, last_len):
                 r = bdd.apply('and', u, v)
             elif op == 'quantify':
                 r = bdd.quantify(u, {names[0]}, False)
+            elif op == 'forall_method':
+                r = bdd.forall({names[0]}, u)
+            elif op == 'quantify_kw':
+                r = bdd.quantify(u, {names[1]}, forall=True)
+            elif op == 'apply_forall':
+                r = bdd.apply('forall', v, u)
             elif op == 'cofactor':
                 r = bdd.let({names[0]: True}, u)
             elif op == 'compose':
